@@ -1,0 +1,10 @@
+//go:build verif
+
+// Contracts for the charging gateway function client. Compiled only under the build tag "verif".
+
+package cgf
+
+// SendCDR transfers the CDR file over FTP (outside the verified subset): it returns an error or nil
+// and touches no charging state.
+//@ func SendCDR [C11 C12]
+//@   trusted
